@@ -312,12 +312,17 @@ type UDPRig struct {
 	Handler  service.PacketHandler
 	done     chan struct{}
 	returned atomic.Int64
+	// further listeners served by the SAME handler (one `services:` entry with several udp
+	// listeners is wired like this by the server binary)
+	ExtraPC    []*net.UDPConn
+	ExtraPorts []int
 }
 
 type UDPRigOpts struct {
 	NatTimeout time.Duration
 	Tee        service.UDPMetrics
 	NoNatHook  bool
+	Listeners  int // total number of listeners served by the one handler (default 1)
 }
 
 func StartUDPRig(keys []KeySpec, o UDPRigOpts) *UDPRig {
@@ -336,12 +341,40 @@ func StartUDPRig(keys []KeySpec, o UDPRigOpts) *UDPRig {
 	}
 	rig.Sock = &serverSock{PacketConn: pc}
 	rig.Handler = service.NewPacketHandler(o.NatTimeout, rig.CL, rig.Rec, rig.SS)
+	var loops sync.WaitGroup
+	loops.Add(1)
 	go func() {
+		defer loops.Done()
 		rig.Handler.Handle(rig.Sock)
+	}()
+	for i := 1; i < o.Listeners; i++ {
+		xpc, err := net.ListenUDP("udp", &net.UDPAddr{})
+		if err != nil {
+			fatalf("udp rig listen: %v", err)
+		}
+		bigBuffers(xpc)
+		rig.ExtraPC = append(rig.ExtraPC, xpc)
+		rig.ExtraPorts = append(rig.ExtraPorts, xpc.LocalAddr().(*net.UDPAddr).Port)
+		loops.Add(1)
+		go func() {
+			defer loops.Done()
+			rig.Handler.Handle(&serverSock{PacketConn: xpc})
+		}()
+	}
+	go func() {
+		loops.Wait()
 		rig.returned.Store(time.Now().UnixNano())
 		close(rig.done)
 	}()
 	return rig
+}
+
+// AddrOf returns the IPv4 address of the i-th listener (0 = the first one).
+func (r *UDPRig) AddrOf(i int) *net.UDPAddr {
+	if i == 0 {
+		return r.Addr4()
+	}
+	return &net.UDPAddr{IP: net.IPv4(203, 0, 113, 10), Port: r.ExtraPorts[i-1]}
 }
 
 func (r *UDPRig) Addr4() *net.UDPAddr {
@@ -354,6 +387,9 @@ func (r *UDPRig) Addr6() *net.UDPAddr {
 // Close closes the listening socket and waits for Handle to return.
 func (r *UDPRig) Close(within time.Duration) bool {
 	r.PC.Close()
+	for _, x := range r.ExtraPC {
+		x.Close()
+	}
 	defer r.Nat.Uninstall()
 	select {
 	case <-r.done:
